@@ -207,6 +207,23 @@ CLAIMED["C13"] = dict(
     technique="Lean 4 proof (specification of the joined pairs) + differential testing on sorted inputs",
 )
 
+CLAIMED["C12"] = dict(
+    text="Lean theorems about the specification Src.evalC of constant expressions (literals, supplied values, earlier constants, "
+         "+, -, min, max, wrapping in the constant's own type): C12_in_range - every constant is a value of its type; "
+         "C12_linear_wrap_once - for +/- expressions wrapping after every operation equals computing over the integers and "
+         "wrapping once, for every width (why compile.rs, which computes in 64 bits and truncates, is right there); "
+         "C12_minmax_differs - under min/max the two differ (a recorded finding). PARTIAL: the substitution property itself is "
+         "explored: programs whose array sizes, trip counts, repeat sizes and number of parties come from usize constants, and "
+         "generated programs in which literals are replaced by constants of every type (external values of 3 parties, nested "
+         "min/max/+/-, references to earlier constants) are compiled with the constants supplied and, independently, from the "
+         "text with the values written out: same input parties, same outputs; then constants are left out or supplied with "
+         "another type: an error naming them, never a panic.",
+    design_ref="DESIGN.md §6 C12",
+    note="trusted: Lean kernel; evalC is the hand-written meaning of constant expressions; usize constants are kept below 2^32 and "
+         "do not wrap in generated programs (they are array sizes)",
+    technique="Lean 4 proof (constant arithmetic) + metamorphic comparison with the substituted program",
+)
+
 CLAIMED["C06"] = dict(
     text="(1) Kernel-checked obligation extracted_hashIterSites: the list of HashMap/HashSet iteration sites of /repo/src, REGENERATED "
          "from the source on every run, equals the audited list in which every site carries the reason why its order cannot reach "
